@@ -330,6 +330,9 @@ E('root', 'z m k', key='root_k', fam='B', tol=4)
 E('nthroot', 'p m', fam='B', tol=4)
 E('log', 'Zp P', key='log_b', fam='B', tol=4)
 E('log', 'Zp', key='log_1', fam='B', tol=4)
+E('ln', 'i:2:2100', key='ln_int', fam='B', tol=4)                      # log_int_cache (n <= 2000)
+for _n in ['exp', 'ln', 'atan', 'sin', 'cos']:                         # series caches: 400 / 2500 / 3000 bit thresholds
+    E(_n, 'x', key=_n + '_hi', fam='B', tol=4, cost=2, maxprec=3300)
 E('powm1', 'p x', fam='B', tol=6)
 E('fmod', 'x x', fam='B', tol=0, exact=True)
 E('lambertw', 'Zp', fam='B', tol=6, ctxs=MPFP)
